@@ -28,6 +28,17 @@ def walk(r, nsteps, nat, lo=-4.0, hi=4.0, bits=4, stay=0.25, start=None):
     return pos
 
 
+BIG_STEPS = [2**31 - 2, 2**31 + 3, 2**32 + 5, 2**53 + 7, 2**61 + 11]
+
+
+def first_step(r, small):
+    """first step number of the job: mostly small, one time in four beyond the 32-bit / 53-bit ranges (an engine that
+    has run for long; a step counter copied into an int or a double goes wrong there)"""
+    if r.random() < 0.25:
+        return r.choice(BIG_STEPS) + r.choice([0, 1, 2, 3, 4, 5, 6])
+    return r.choice(small)
+
+
 def forces(r, nsteps, nat, bits=3):
     return [[(0.0 if r.random() < 0.15 else V.dyadic(r, -8, 8, bits=bits)) for _ in range(nat)] for _ in range(nsteps)]
 
@@ -120,10 +131,28 @@ def gen_restraint(r, k, T):
     if r.random() < 0.2:
         B.append("  outputEnergy on")
     B.append("}")
-    it0 = r.choice([0, 0, 0, 5, 12])
+    it0 = first_step(r, [0, 0, 0, 5, 12])
     M["it0"] = it0
-    return {"fam": "restraint", "tags": tags, "sigtags": [m], "natoms": nv, "config": cfg + B, "it0": it0,
-            "pos": walk(r, T, nv), "model": M}
+    pos = walk(r, T, nv)
+    conf = cfg + B
+    if "periodic" not in tags and r.random() < 0.2:
+        # all lengths 2^27 (1.3e8) or 2^-27 (7.5e-9) times larger: widths, centres, walls, positions (energies unchanged)
+        S = 2.0 ** r.choice([-27, 27])
+        tags.append("scale=%g" % S)
+
+        def sc(line):
+            w = line.split()
+            if w and w[0] in ("width", "centers", "targetCenters", "lowerWalls", "upperWalls"):
+                return "  " + w[0] + " " + vec([float(x) * S for x in w[1:]])
+            return line
+        conf = [sc(l) for l in conf]
+        pos = [[z * S for z in p] for p in pos]
+        for v in M["vars"]:
+            v["w"] *= S
+        for key in ("centers", "target_centers", "lower", "upper"):
+            M[key] = [x * S for x in M[key]]
+    return {"fam": "restraint", "tags": tags, "sigtags": [m], "natoms": nv, "config": conf, "it0": it0,
+            "pos": pos, "model": M}
 
 
 # ------------------------------------------------------------------------------------------------ histogram
@@ -161,7 +190,7 @@ def gen_histogram(r, k, T):
             cur = nxt
         pos.append(list(cur))
     return {"fam": "histogram", "tags": tags, "sigtags": sig, "collapse": "all" if sig else None, "natoms": nv,
-            "config": cfg + B, "it0": r.choice([0, 0, 7]), "pos": pos, "model": M}
+            "config": cfg + B, "it0": first_step(r, [0, 0, 7]), "pos": pos, "model": M}
 
 
 # ------------------------------------------------------------------------------------------------ extended Lagrangian
@@ -205,7 +234,7 @@ def gen_extlag(r, k, T):
     cfg = cv_block(0, width=w, lower=lo, upper=up, extra=ex)
     bias = r.choice(["harmonic", "harmonic", "moving", "none"])
     tags.append("bias=" + bias)
-    it0 = r.choice([0, 0, 3])
+    it0 = first_step(r, [0, 0, 3])
     RM = {"kind": "harmonic", "vars": [{"w": w, "per": False, "P": 1.0, "wc": 0.0}], "k0": 0.0, "centers": [0.0],
           "target_centers": [0.0], "chgc": False, "chgk": False, "dec": False, "sk": -1.0, "tk": -1.0, "lexp": 1.0,
           "sched": [], "N": 0, "nstages": 0, "equil": 0, "accw": False, "hl": False, "hu": False, "lower": [0.0],
@@ -231,7 +260,7 @@ def gen_extlag(r, k, T):
 
 def gen_mts(r, k, T):
     """multiple time stepping: variable and bias with timeStepFactor f are computed every f-th absolute step"""
-    f = r.choice([2, 3])
+    f = r.choice([2, 3, 3, 5, 6])
     ext = r.random() < 0.5
     ex = ["timeStepFactor %d" % f]
     tags = ["mts", "factor=%d" % f]
@@ -253,7 +282,7 @@ def gen_mts(r, k, T):
         cfg.append("}")
     start = [V.dyadic(r, -1.0, 1.0, bits=3)]
     return {"fam": "mts", "tags": tags, "sigtags": [], "natoms": 1, "setup": ["dt 1.0", "temperature 300.0"], "config": cfg,
-            "sleep_factor": f, "mts_extended": ext, "it0": r.choice([0, 0, 3, 4]), "pos": walk(r, T, 1, lo=-1.5, hi=1.5, bits=5, stay=0.1, start=start)}
+            "sleep_factor": f, "mts_extended": ext, "it0": first_step(r, [0, 0, 3, 4]), "pos": walk(r, T, 1, lo=-1.5, hi=1.5, bits=5, stay=0.1, start=start)}
 
 
 def gen_ti(r, k, T):
@@ -269,7 +298,7 @@ def gen_ti(r, k, T):
     tags = ["ti", "samestep" if same else "lagged", "bias=" + kind] + (["subtract"] if sub else [])
     ti = ["  writeTISamples on", "  writeTIPMF on"]
     if kind == "meta":
-        cfg += ["metadynamics {", "  name b", "  colvars v0", "  hillWeight 0.5", "  newHillFrequency %d" % r.choice([1, 2, 3]),
+        cfg += ["metadynamics {", "  name b", "  colvars v0", "  hillWeight 0.5", "  newHillFrequency %d" % r.choice([1, 2, 3, 5, 7]),
                 "  hillWidth 2.0"] + ti + ["}"]
     else:
         cfg += ["harmonic {", "  name b", "  colvars v0", "  forceConstant %r" % r.choice([0.5, 1.0, 2.0]),
@@ -278,7 +307,7 @@ def gen_ti(r, k, T):
             cfg += ["  targetCenters %r" % V.dyadic(r, -2, 2, bits=2), "  targetNumSteps %d" % r.choice([4, 8, 20])]
         cfg += ti + ["}"]
     return {"fam": "ti", "tags": tags, "sigtags": [], "natoms": 1, "setup": ["samestep %d" % (1 if same else 0), "includecv 1", "temperature 300.0"],
-            "config": cfg, "it0": r.choice([0, 0, 4]), "show_tf": True, "tf_lagged": not same,
+            "config": cfg, "it0": first_step(r, [0, 0, 4]), "show_tf": True, "tf_lagged": not same,
             "pos": walk(r, T, 1, lo=lo - 0.5, hi=lo + nx * w + 0.5, bits=3), "ef": forces(r, T, 1)}
 
 
@@ -303,11 +332,32 @@ def gen_abmd(r, k, T):
 
 # ------------------------------------------------------------------------------------------------ ALB
 def gen_alb(r, k, T):
-    cfg = cv_block(0, width=1.0)
-    B = ["alb {", "  name a", "  colvars v0", "  centers %r" % V.dyadic(r, 0.5, 2, bits=2),
-         "  updateFrequency %d" % r.choice([4, 6, 8]), "  forceRange 2.0", "}"]
-    return {"fam": "alb", "tags": ["alb"], "sigtags": [], "collapse": "all", "natoms": 1, "setup": ["temperature 300.0"], "config": cfg + B, "it0": 0,
-            "pos": walk(r, T, 1, lo=0.5, hi=4, bits=3)}
+    w = r.choice([1.0, 0.5, 2.0])
+    cfg = cv_block(0, width=w)
+    cen = V.dyadic(r, 0.5, 2, bits=2)
+    uf = r.choice([4, 6, 8, 10, 12, 14])
+    rng = r.choice([2.0, 1.0, 0.5])
+    temp = 300.0
+    B = ["alb {", "  name a", "  colvars v0", "  centers %r" % cen, "  updateFrequency %d" % uf, "  forceRange %r" % rng]
+    tags = ["alb", "freq=%d" % uf]
+    M = {"center": cen, "width": w, "freq": uf // 2, "kT": temp * KB, "range0": rng, "maxrate": rng / (10.0 * float(uf // 2)),
+         "hard": True, "k0": 0.0}
+    if r.random() < 0.3:
+        B.append("  hardForceRange off")
+        M["hard"] = False
+        tags.append("soft-range")
+    if r.random() < 0.3:
+        k0 = r.choice([0.5, -0.25, 1.0])
+        B.append("  forceConstant %r" % k0)
+        M["k0"] = k0
+        tags.append("k0")
+    if r.random() < 0.3:
+        mr = r.choice([0.125, 0.03125])
+        B.append("  rateMax %r" % mr)
+        M["maxrate"] = mr
+    B.append("}")
+    return {"fam": "alb", "tags": tags, "sigtags": [], "natoms": 1, "setup": ["temperature %r" % temp], "config": cfg + B,
+            "it0": first_step(r, [0, 0, 3]), "pos": walk(r, T, 1, lo=0.5, hi=4, bits=3), "model": M}
 
 
 # ------------------------------------------------------------------------------------------------ ABF
@@ -361,7 +411,7 @@ def gen_abf(r, k, T):
         M["other"][0] = True
         M["hk"], M["hc"] = hk, hc
     return {"fam": "abf", "tags": tags, "sigtags": [], "natoms": nv, "setup": ["samestep %d" % (1 if same else 0), "includecv 1"],
-            "config": cfg + B, "it0": r.choice([0, 0, 4]), "show_tf": True, "tf_lagged": not same,
+            "config": cfg + B, "it0": first_step(r, [0, 0, 4]), "show_tf": True, "tf_lagged": not same,
             "pos": walk(r, T, nv, lo=-3.5, hi=3.5, bits=3), "ef": forces(r, T, nv), "model": M}
 
 
@@ -378,7 +428,6 @@ def gen_pabf(r, k, T):
     c["fam"] = "pabf"
     c["tags"] = ["pabf", "freq=%d" % freq] + c["tags"][1:]
     c["sigtags"] = []
-    c["collapse"] = "all"
     return c
 
 
@@ -481,7 +530,7 @@ def gen_meta(r, k, T):
                 pos[t] = [z - 6.0 for z in pos[t]]
     return {"fam": "meta", "tags": tags, "sigtags": ["pending-hills"] if pending else [],
             "collapse": "obs" if pending else None, "natoms": nv, "setup": ["temperature 300.0"], "config": cfg + B,
-            "it0": r.choice([0, 0, 5]), "pos": pos, "model": M, "files": files}
+            "it0": first_step(r, [0, 0, 5]), "pos": pos, "model": M, "files": files}
 
 
 # ------------------------------------------------------------------------------------------------ OPES
@@ -490,8 +539,8 @@ def gen_opes(r, k, T):
     cfg = []
     for i in range(nv):
         cfg += cv_block(i, width=1.0, lower=-4.0, upper=4.0)
-    pace = r.choice([1, 2, 3])
-    rf = r.choice([1, 2, 4])
+    pace = r.choice([1, 2, 3, 5])
+    rf = r.choice([0, 1, 2, 4])     # 0: no restart schedule of the module (the engine decides when states are written)
     B = ["opes_metad {", "  name o", "  colvars " + " ".join("v%d" % i for i in range(nv)),
          "  newHillFrequency %d" % pace, "  barrier %r" % r.choice([5.0, 10.0]),
          "  gaussianSigma " + vec([r.choice([0.25, 0.5]) for _ in range(nv)]), "  outputEnergy on"]
@@ -520,7 +569,7 @@ def gen_opes(r, k, T):
         B += ["  pmf on", "  pmfColvars v0", "  pmfHistoryFrequency %d" % r.choice([0, 4])]
         tags.append("pmf")
     B.append("}")
-    return {"fam": "opes", "tags": tags, "sigtags": [t for t in ("adaptiveSigma", "pmf") if t in tags], "collapse": None, "natoms": nv, "setup": ["temperature 300.0", "restartfreq %d" % rf],
+    return {"fam": "opes", "tags": tags, "sigtags": [], "collapse": None, "natoms": nv, "setup": ["temperature 300.0", "restartfreq %d" % rf],
             "config": cfg + B, "it0": 0, "pos": walk(r, T, nv, lo=-3.0, hi=3.0, bits=3), "restartfreq": rf,
             "needs_prefix": True}
 
@@ -578,7 +627,7 @@ def gen_eabf(r, k, T):
     start = [lo + nx * w / 2]
     pos = walk(r, T, 1, lo=lo, hi=lo + nx * w, bits=5, stay=0.1, start=start)
     M = {"x": X, "lower": lo, "width": w, "nx": nx, "full": full, "min": mn}
-    return {"fam": "eabf", "tags": tags, "sigtags": [], "natoms": 1, "setup": setup, "config": cfg + B, "it0": r.choice([0, 0, 3]),
+    return {"fam": "eabf", "tags": tags, "sigtags": [], "natoms": 1, "setup": setup, "config": cfg + B, "it0": first_step(r, [0, 0, 3]),
             "pos": pos, "ef": forces(r, T, 1), "show_tf": True, "tf_lagged": True, "model": M}
 
 
@@ -605,8 +654,17 @@ def gen_multi(r, k, T):
          "  keepHills %s" % r.choice(["on", "off"]), "}",
          "harmonicWalls {", "  name w", "  colvars v0", "  lowerWalls -3.0", "  upperWalls 3.0", "  forceConstant 1.0",
          "  targetForceConstant 4.0", "  targetNumSteps 3", "  targetNumStages 2", "}"]
-    return {"fam": "multi", "tags": ["multi", "2cv+5biases"], "sigtags": [], "natoms": 2, "setup": ["temperature 300.0"],
-            "config": cfg + B, "it0": r.choice([0, 4]), "pos": walk(r, T, 2, lo=-2.5, hi=2.5, bits=3), "shuffle": True}
+    tags = ["multi", "2cv+5biases"]
+    if r.random() < 0.6:
+        # several holders of the same thing: three more moving restraints of one kind on the same variable, without
+        # names (harmonic2, harmonic3, ... by rank), the odd one in the middle; a second, unnamed histogram
+        for n, k in ((5, 1.0), (7, 0.5), (5, 1.0)):
+            B += ["harmonic {", "  colvars v0", "  forceConstant %r" % k, "  centers %r" % V.dyadic(r, -2, 2, bits=2),
+                  "  targetCenters %r" % V.dyadic(r, -2, 2, bits=2), "  targetNumSteps %d" % n, "  outputAccumulatedWork on", "}"]
+        B += ["histogram {", "  colvars v1", "}"]
+        tags = ["multi", "2cv+9biases", "unnamed"]
+    return {"fam": "multi", "tags": tags, "sigtags": [], "natoms": 2, "setup": ["temperature 300.0"],
+            "config": cfg + B, "it0": first_step(r, [0, 4]), "pos": walk(r, T, 2, lo=-2.5, hi=2.5, bits=3), "shuffle": True}
 
 
 FAMILIES = {"ti": gen_ti, "pabf": gen_pabf, "mts": gen_mts, "multi": gen_multi, "runave": gen_runave, "histrestraint": gen_histrestraint, "eabf": gen_eabf, "opes": gen_opes, "restraint": gen_restraint, "histogram": gen_histogram, "extlag": gen_extlag, "abmd": gen_abmd, "alb": gen_alb, "abf": gen_abf, "meta": gen_meta}
